@@ -29,7 +29,7 @@ for d in seeded/$pat/; do
     res="$res $p:exit=$code,viol=$n"
     # keep the first minimised case that convicted this change (the corpus)
     if [ $code -eq 1 ] && [ -n "$CORPUS" ]; then
-      f=$(ls "$CRDSIM_OUT"/replays/$p-*.json 2>/dev/null | head -1)
+      f=$(ls "$CRDSIM_OUT"/replays/$p-*.json 2>/dev/null | grep -v -- "-20000[0-9][0-9]-" | head -1) # a generated case, not a corpus case
       if [ -n "$f" ] && [ $(stat -c %s "$f") -le 262144 ] && [ ! -e "/verif/corpus/$p-$id.json" ]; then mkdir -p /verif/corpus && cp "$f" "/verif/corpus/$p-$id.json"; fi
     fi
     rm -rf "$CRDSIM_OUT"/replays
